@@ -767,6 +767,33 @@ fn explore_pair(p: &Pair, func: usize, prop: Prop, tier: Tier, chunk: Option<(us
                 ops.push(x);
             }
         }
+        if func == 3 && s.signed {
+            // exp: operands next to the thresholds of the destination -- (integer bits - 1) ln 2, above which e^x does
+            // not fit, and -(fractional bits) ln 2, below which it rounds to zero -- at distances 0, +-1 ulp and
+            // +-2^-m of the source resolution: the running sum of the series crosses the range of the type there
+            let ln2 = hp::ln2();
+            let ib = (d.w - d.frac) as u64;
+            for (mult, neg) in [(ib.saturating_sub(1), false), (ib.saturating_sub(2), false), (d.frac as u64, true), (d.frac as u64 + 1, true), (ib.saturating_sub(1), true)] {
+                let t = ln2.mul_small(mult);
+                let raw = t.0.shr_floor(hp::HF - s.frac);
+                let Some(base) = raw.to_i128() else { continue };
+                let base = if neg { -base } else { base };
+                let mut offs: Vec<i128> = vec![0, 1, -1, 2, -2];
+                for mm in 1..=s.frac.min(16) {
+                    offs.push(1i128 << (s.frac - mm));
+                    offs.push(-(1i128 << (s.frac - mm)));
+                }
+                for o in offs {
+                    let z = Z::from_i128(base + o);
+                    if s.fits(&z) {
+                        let x = s.wrap(&z);
+                        if seen.insert(x) {
+                            ops.push(x);
+                        }
+                    }
+                }
+            }
+        }
         if func == 0 {
             for x in square_operands(s, if thin { 24 } else if tier == Tier::Quick { 200 } else { 3000 }) {
                 if seen.insert(x) {
